@@ -349,6 +349,46 @@ pub fn shapes_pub<B: Backend>(seed: u64, tier: Tier) -> Vec<BytesCase> {
     shapes::<B>(seed, tier)
 }
 
+/// Ed25519 public-key encodings at the edges of what decoders accept: y written unreduced
+/// (p + k, k = 0..18, either sign bit), x = 0 with the sign bit set, the small-order points,
+/// all-zero and all-ones.  Whether each is accepted is not constrained; what an accepted one
+/// serialises to and hashes to is.
+pub fn ed25519_edge_encodings() -> Vec<(String, Vec<u8>)> {
+    let mut out = Vec::new();
+    for k in 0u8..19 {
+        for sign in [0u8, 0x80] {
+            let mut v = vec![0xffu8; 32];
+            v[0] = 0xed + k;
+            v[31] = 0x7f | sign;
+            out.push((format!("ed25519-edge#y=p+{k}-sign{}", sign >> 7), v));
+        }
+    }
+    for (name, y0) in [("y=1", 1u8), ("y=0", 0u8)] {
+        for sign in [0u8, 0x80] {
+            let mut v = vec![0u8; 32];
+            v[0] = y0;
+            v[31] = sign;
+            out.push((format!("ed25519-edge#{name}-sign{}", sign >> 7), v));
+        }
+    }
+    // y = p - 1 (the point of order 2), either sign
+    for sign in [0u8, 0x80] {
+        let mut v = vec![0xffu8; 32];
+        v[0] = 0xec;
+        v[31] = 0x7f | sign;
+        out.push((format!("ed25519-edge#y=p-1-sign{}", sign >> 7), v));
+    }
+    // the two order-8 points' y coordinates (RFC 8032 small-order list)
+    for (i, hexs) in ["26e8958fc2b227b045c3f489f2ef98f0d5dfac05d3c63339b13802886d53fc05", "c7176a703d4dd84fba3c0b760d10670f2a2053fa2c39ccc64ec7fd7792ac037a"].iter().enumerate() {
+        let mut v = hex::decode(hexs).unwrap();
+        out.push((format!("ed25519-edge#order8-{i}"), v.clone()));
+        v[31] |= 0x80;
+        out.push((format!("ed25519-edge#order8-{i}-sign1"), v));
+    }
+    out.push(("ed25519-edge#all-ones".into(), vec![0xff; 32]));
+    out
+}
+
 /// the enumerated shapes for one back end
 fn shapes<B: Backend>(seed: u64, tier: Tier) -> Vec<BytesCase> {
     let ver = B::VER;
@@ -365,6 +405,59 @@ fn shapes<B: Backend>(seed: u64, tier: Tier) -> Vec<BytesCase> {
     }
     let reps = tier.pick(40usize, 600);
     let ks: Vec<KeySeed> = (0..reps).map(|i| KeySeed::from_u64(seed ^ (i as u64 * 0x9e37))).collect();
+    if ver != Ver::V1 {
+        // valid keys with bytes inserted, appended, prepended, removed or doubled: every one has
+        // the wrong length for its kind and must be refused, whatever its two ends look like
+        for (ki, k) in ks.iter().enumerate().take(tier.pick(12, 100)) {
+            let sk = secret_bytes(ver, k);
+            let pk = public_bytes(ver, &sk);
+            let lk = local_key_bytes(k).to_vec();
+            let psk = pke_secret_bytes(ver, k);
+            let ppk = public_bytes(ver, &psk);
+            for (kind, vb) in [("Local", &lk), ("Secret", &sk), ("Public", &pk), ("PkeSecret", &psk), ("PkePublic", &ppk)] {
+                let l = vb.len();
+                let junk = |n: usize, t: u64| rng::det_bytes(hash_of(k) ^ t, 0x1b, n);
+                for at in [0usize, 1, l / 2, 32.min(l), l - 1, l] {
+                    for n in [1usize, 2, 16, 32] {
+                        let mut v = vb[..at].to_vec();
+                        v.extend(junk(n, (at * 64 + n) as u64));
+                        v.extend_from_slice(&vb[at..]);
+                        push(kind, format!("valid-key-with-insertion#at{at}+{n}"), v);
+                    }
+                    if at < l {
+                        let mut v = vb[..at].to_vec();
+                        v.extend_from_slice(&vb[at + 1..]);
+                        push(kind, format!("valid-key-with-deletion#at{at}"), v);
+                    }
+                }
+                let mut d = vb.to_vec();
+                d.extend_from_slice(vb);
+                push(kind, "valid-key-doubled".into(), d);
+                if l >= 64 {
+                    // first half ++ first half, second half ++ second half, halves swapped
+                    push(kind, "valid-key-halves#swapped".into(), [&vb[l / 2..], &vb[..l / 2]].concat());
+                    push(kind, "valid-key-halves#first-only".into(), vb[..l / 2].to_vec());
+                    push(kind, "valid-key-halves#second-only".into(), vb[l / 2..].to_vec());
+                }
+            }
+            if matches!(ver, Ver::V2 | Ver::V4) && ki < tier.pick(2, 8) {
+                // seed and public half overlapping by one byte (63 bytes whose first 32 are a seed and
+                // whose last 32 are its public key): search a seed whose last byte equals pk[0]
+                for t in 0..4096u64 {
+                    let seed: [u8; 32] = rng::det_bytes(hash_of(k) ^ 0x0e1a, t, 32).try_into().unwrap();
+                    let pkk = model::ed25519_pk_from_seed(&seed);
+                    if seed[31] == pkk[0] {
+                        let mut v = seed[..31].to_vec();
+                        v.extend_from_slice(&pkk);
+                        for kind in ["Secret", "PkeSecret"] {
+                            push(kind, "valid-key-halves#overlapping-63".into(), v.clone());
+                        }
+                        break;
+                    }
+                }
+            }
+        }
+    }
     match ver {
         Ver::V3 => {
             let n = p384_n();
@@ -437,6 +530,11 @@ fn shapes<B: Backend>(seed: u64, tier: Tier) -> Vec<BytesCase> {
             }
         }
         Ver::V2 | Ver::V4 => {
+            for (shape, bytes) in ed25519_edge_encodings() {
+                for kind in ["Public", "PkePublic"] {
+                    push(kind, shape.clone(), bytes.clone());
+                }
+            }
             for k in &ks {
                 let sk = secret_bytes(ver, k);
                 let pk = public_bytes(ver, &sk);
